@@ -6,7 +6,7 @@ import os
 from checklib import core
 from checklib.props import stm_common as sc
 
-BINS = ["objseq", "frontobj", "e2e"]
+BINS = ["objseq", "frontobj", "curobj", "e2e"]
 PID = "C15"
 
 
@@ -14,6 +14,7 @@ def setup():
     core.coq_build(["Cursor/Extract.vo", "Frontier/Extract.vo", "Stm/Extract.vo"])
     core.ocaml_build("cursor", "cursor", "cursor_drv")
     core.ocaml_build("frontier", "frontier", "frontier_drv")
+    core.ocaml_build("cursor", "cursor", "curtrace_drv", exe="cursor_trace_model")
     core.ocaml_build("stm", "stm", "stm_drv")
 
 
@@ -38,6 +39,31 @@ def frontier_stage(ctx, exe, model, count):
             res["reject"].append(line)
     res["driver_failures"] = sum(1 for l in open(out) if l.startswith("# case") and "failure=None" not in l)
     res["trace_file"] = out
+    return res
+
+
+def cursor_conc_stage(ctx, exe, model, count):
+    """Concurrent claimers and rewinders on the real SchedulerContext / RewindableCursor under the
+    deterministic driver with instrumented atomics (a thread switch is possible between any two
+    atomic operations); traces replayed by the extracted Cursor acceptor + direct predicates
+    (ocaml/curtrace_drv.ml)."""
+    out = os.path.join(ctx.work, "curobj.txt")
+    rc, o = core.sh([exe, str(ctx.seed), str(count), out], timeout=1500)
+    if rc != 0:
+        raise RuntimeError("curobj failed: " + o[-2000:])
+    rc, verdicts = core.sh([model, out], timeout=1500)
+    res = dict(cases=0, accept=0, direct=[], reject=[], claims=0, rewinds=0, effective_rewinds=0)
+    for line in verdicts.splitlines():
+        res["cases"] += 1
+        if line.startswith("ACCEPT"):
+            res["accept"] += 1
+            kv = dict(x.split("=") for x in line.split()[1:])
+            res["claims"] += int(kv["claims"]); res["rewinds"] += int(kv["rewinds"]); res["effective_rewinds"] += int(kv["effective_rewinds"])
+        elif line.startswith("DIRECT"):
+            res["direct"].append(line)
+        else:
+            res["reject"].append(line)
+    res["driver_failures"] = sum(1 for l in open(out) if l.startswith("# case") and "failure=None" not in l)
     return res
 
 
@@ -84,20 +110,29 @@ def run(ctx):
     corr_ok = d["first_diff"] is None
     fmodel = core.ocaml_build("frontier", "frontier", "frontier_drv")
     fr = frontier_stage(ctx, bins["frontobj"], fmodel, 3000 if ctx.quick else 60000)
+    cmodel = core.ocaml_build("cursor", "cursor", "curtrace_drv", exe="cursor_trace_model")
+    cc = cursor_conc_stage(ctx, bins["curobj"], cmodel, 3000 if ctx.quick else 60000)
     # protocol level: the timestamp discipline of rewind_validation_to / finality, observed on
     # driven runs of the real Scheduler (trace acceptance + in-order oracle)
     agg, sbins, smodel = sc.run_sweeps(ctx, stm_sweeps(ctx))
     stm_corr = agg["rejected"] + agg["nondet"] + agg["model_vs_oracle"]
 
-    if fr["direct"]:
+    if cc["direct"]:
+        ctx.violation("a rewound index is not offered for validation again, an index at/after the limit is handed out, or an index is handed out twice",
+                      dict(witness=cc["direct"][0], replay="target/release/curobj %d %d <out>; build/cursor_trace_model <out>" % (ctx.seed, cc["cases"]), seed=ctx.seed), True)
+    elif fr["direct"]:
         ctx.violation("the first-unexecuted frontier passes an unexecuted transaction or fails to catch up with completed ones",
                       dict(witness=fr["direct"][0], replay="target/release/frontobj %d %d <out>; build/frontier_model <out>" % (ctx.seed, fr["cases"]), seed=ctx.seed), True)
     elif agg["oracle_mismatch"]:
         c = agg["oracle_mismatch"][0]
         ctx.violation("a validation that predates a rewind made its transaction final (result differs from in-order execution)",
                       dict(replay=sc.replay_cmd(c), case=c, detail=open(c["file"]).read()[:4000] if c.get("file") else "", seed=ctx.seed), True)
-    elif fr["reject"] or fr["driver_failures"] or stm_corr:
+    elif fr["reject"] or fr["driver_failures"] or stm_corr or cc["reject"] or cc["driver_failures"]:
         broken = list(proof["problems"]) if not proof["ok"] else []
+        for r in cc["reject"][:3]:
+            broken.append("concurrent cursor trace not accepted by the Coq acceptor: " + r[:400])
+        if cc["driver_failures"]:
+            broken.append("%d concurrent cursor cases ended with a driver failure" % cc["driver_failures"])
         for r in fr["reject"][:3]:
             broken.append("frontier trace not accepted by the Coq acceptor: " + r[:400])
         if fr["driver_failures"]:
@@ -135,8 +170,10 @@ def run(ctx):
         checker_cmd="make -f Makefile.coq Props/C15.vo (coqc 8.16.1)" + ("; coqchk -silent -o Grevm.Props.C15" if not ctx.quick else ""),
         trusted_base=core.TRUSTED_COMMON + ["axioms per Print Assumptions: " + str(proof["axioms"])],
         theorems=proof["theorems"],
-        evaluations=len(d["cases"]) + fr["cases"] + agg["cases"], distinct_nontrivial=d["nontrivial"] + agg["nontrivial"],
-        traces_validated_against_impl=fr["accept"] + agg["accepted"],
+        evaluations=len(d["cases"]) + fr["cases"] + agg["cases"] + cc["cases"],
+        cursor_concurrent=dict(cases=cc["cases"], accepted=cc["accept"], claims=cc["claims"], rewinds=cc["rewinds"], rewinds_that_lowered_the_cursor=cc["effective_rewinds"],
+                               rule="2-4 threads: next_validation_idx(limit) / rewind_validation_to(v) on the real SchedulerContext (3-12 indices, all executed) under the deterministic driver with instrumented atomics; Cursor acceptor + direct predicates (claimed index < limit; every index in [v, previous) claimed again after the rewind or still ahead of the final cursor; no double claim without a covering rewind)"), distinct_nontrivial=d["nontrivial"] + agg["nontrivial"],
+        traces_validated_against_impl=fr["accept"] + agg["accepted"] + cc["accept"],
         frontier=dict(cases=fr["cases"], accepted=fr["accept"], fetch_max_events=fr["fetch_max"], current_calls=fr["returned"],
                       current_calls_with_positive_lower_bound=fr["helped"],
                       rule="2-4 threads publish a random subset of 2-6 indices in random order and call current() on the real ExecutionFrontier under the deterministic driver (random walk / PCT); each trace replayed by the extracted Frontier acceptor; direct predicates: returned value has all flags below it stored, is >= the number of leading completed publishes at call time, final frontier == first unpublished index"),
